@@ -775,14 +775,14 @@ pub fn gen_project(rng: &mut Rng, knobs: &ProjectKnobs) -> Project {
         }
     }
     if luau && !input_is_file && rng.chance(1, 4) {
-        // a module folder: the same literal `require("./util")` written in `pkg/init.luau`
+        // a module folder: the same literal `require("./helper_mod")` written in `pkg/init.luau`
         // (resolved from the parent of the folder) and in `pkg/other.luau` (resolved from
         // `pkg`) means two different files; which is which is darklua's business, but it
         // must not depend on which of the two is processed first
         let raw = |marker: &str, require: bool| {
             Body::Text(format!(
                 "{}mark(\"{}\")\nreturn {{ \"{}\" }}\n",
-                if require { "local u = require(\"./util\")\nuse(u)\n" } else { "" },
+                if require { "local u = require(\"./helper_mod\")\nuse(u)\n" } else { "" },
                 marker,
                 marker
             ))
@@ -790,8 +790,8 @@ pub fn gen_project(rng: &mut Rng, knobs: &ProjectKnobs) -> Project {
         for (path, marker, require) in [
             ("pkg/init.luau", "pkg_init", true),
             ("pkg/other.luau", "pkg_other", true),
-            ("util.luau", "outer_util", false),
-            ("pkg/util.luau", "inner_util", false),
+            ("helper_mod.luau", "outer_helper", false),
+            ("pkg/helper_mod.luau", "inner_helper", false),
         ] {
             let path = join(&input_dir, path);
             if !sources.iter().any(|s| s.path == path) && !other.iter().any(|e| e.path == path) {
